@@ -14,8 +14,8 @@ NEED = ("generic",)
 IKV = "heavy.ImmutableKnotVector"
 KV = "knotspace.KnotVector"
 KV_COMPOSITE = {
-    KV + ".__iadd__": "shift; only if that raised TypeError *before its commit* insert",
-    KV + ".__isub__": "shift(-x); only if that raised TypeError before its commit remove",
+    KV + ".__iadd__": "float(other) probe, then exactly one of shift / insert",
+    KV + ".__isub__": "float(other) probe, then exactly one of shift(-x) / remove",
     KV + ".__imul__": "delegates to scale",
     KV + ".__itruediv__": "delegates to scale",
     KV + ".degree.setter": "remove / insert under disjoint relations of the same unmodified local",
